@@ -110,11 +110,16 @@ func shrinkPair(c pairCase) []pairCase {
 func c02Gen(t *rapid.T) pairCase {
 	ka := exact.Kind(rapid.IntRange(0, 3).Draw(t, "ka"))
 	kb := exact.Kind(rapid.IntRange(0, 3).Draw(t, "kb"))
-	return genPair(t, ka, kb, 6, false)
+	return genPair(t, ka, kb, 6, false, true)
 }
 
 func c02Subs() []fw.Sub {
 	return []fw.Sub{fw.Prop[pairCase]{
+		Name:       "intersects-enumerated",
+		Exhaustive: enumPairsSpace,
+		Enum:       enumPairs,
+		Check:      c02Check,
+	}, fw.Prop[pairCase]{
 		Name: "intersects-random",
 		Checks: func(tier string) int {
 			if tier == "thorough" {
